@@ -292,7 +292,7 @@ example : ReqShape.lateChecks [.check, .mutate .chan true, .mutate .chan false, 
 
 /-! ### Non-vacuity -/
 
-def cfg0 : Cfg := { maxInvoices := 4, readyOid := 1, now := 1600000000 }
+def cfg0 : Cfg := { maxInvoices := 4, maxChannels := 3, readyOid := 1, now := 1600000000 }
 def s0 : St := St.init (Velocity.VC.ofSpec ⟨10000000, .hourly⟩)
 
 /-- a refused allowlist update after an accepted one (the F3 shape) -/
